@@ -5,7 +5,10 @@
 (* TRACE_FILE: NDJSON, one merged pair per line                             *)
 (*   [t, raised, at,                                                        *)
 (*    regs  = <<[n, w, m1, m2, mm]>>   what each map holds for register n   *)
-(*    cells = <<[o, m1, m2, mm]>>      ... for the memory byte at p+o       *)
+(*    cells = <<[o, m1, m2, mm, m1a, m2a]>>  ... for the memory byte at p+o; *)
+(*             m1a / m2a: what the assume() copy merge() works on holds     *)
+(*    ev    = <<[k, raised, regs = <<[n, t]>>, cells = <<[o, t]>>]>>        *)
+(*             amoco's own evaluation  c >> mm  on valuation number k       *)
 (*    items = <<[loc, mX_has, mX_w, mX, mX_item]>> (X = 1, 2, m)             *)
 (*             per item key: has the map an item, how wide, what a read of  *)
 (*             the location returns at the width of mm's item (mX), and the *)
@@ -18,6 +21,9 @@
 (*   Covers     for every valuation s satisfying branch i's conditions and  *)
 (*              every register / memory byte: the candidates of mi are      *)
 (*              candidates of mm, or mm is unknown there                    *)
+(*   EvalCovers the same on what amoco's evaluation of mm on a concrete      *)
+(*              state returns (a widened / unknown value must stay unknown; *)
+(*              skipped where the reference semantics cannot value mi)      *)
 (*   Untouched  a register / byte that both maps leave as it is (the tree   *)
 (*              is the location itself) has exactly its initial value in mm *)
 (*   Keys       every item key of mm is an item key of m1 or of m2          *)
@@ -46,6 +52,10 @@
 (*     position in the item list, so the copy merge() works on (assume ->   *)
 (*     eval replays the items in list order) no longer holds what the map   *)
 (*     held;                                                                *)
+(*   VecMapCopyDiffers  iff the branch stores through a vector-valued       *)
+(*     pointer and the assume() copy of its map - what merge() actually     *)
+(*     joins - does not hold at the failing byte what the map holds         *)
+(*     (items deleted / not moved by such stores are replayed wrongly);     *)
 (*   VecStoreDropsItem  iff the failing byte is written in the branch's     *)
 (*     memory but no item of the branch's map covers it, and the branch     *)
 (*     stores through a vector-valued pointer (_Mem_write deletes the items *)
@@ -81,6 +91,17 @@ FailCells(envs) ==
   {x \in {"m"} \X (1..Len(T.cells)) \X {1, 2} \X (1..Len(envs)) :
      LET e == T.cells[x[2]] mi == IF x[3] = 1 THEN e.m1 ELSE e.m2 env == envs[x[4]] IN
      Sat(env, T.conds[x[3]]) /\ (Bad(e.mm) \/ Bad(mi) \/ ~SubAlts(AltSet(mi, env), AltSet(e.mm, env)))}
+(* amoco's own evaluation of mm on a concrete state: <<kind, index, branch, index in T.ev>> *)
+FailEvRegs(envs) ==
+  {x \in {"r"} \X (1..Len(T.regs)) \X {1, 2} \X (1..Len(T.ev)) :
+     LET ev == T.ev[x[4]] e == T.regs[x[2]] mi == IF x[3] = 1 THEN e.m1 ELSE e.m2 IN
+     ev.raised = "" /\ Sat(envs[ev.k], T.conds[x[3]]) /\ ~Bad(mi) /\ Unknown \notin AltSet(mi, envs[ev.k])
+       /\ (Bad(ev.regs[x[2]].t) \/ ~SubAlts(AltSet(mi, envs[ev.k]), AltSet(ev.regs[x[2]].t, envs[ev.k])))}
+FailEvCells(envs) ==
+  {x \in {"m"} \X (1..Len(T.cells)) \X {1, 2} \X (1..Len(T.ev)) :
+     LET ev == T.ev[x[4]] e == T.cells[x[2]] mi == IF x[3] = 1 THEN e.m1 ELSE e.m2 IN
+     ev.raised = "" /\ Sat(envs[ev.k], T.conds[x[3]]) /\ ~Bad(mi) /\ Unknown \notin AltSet(mi, envs[ev.k])
+       /\ (Bad(ev.cells[x[2]].t) \/ ~SubAlts(AltSet(mi, envs[ev.k]), AltSet(ev.cells[x[2]].t, envs[ev.k])))}
 FailUntouched(envs) ==
   {x \in {"r"} \X (1..Len(T.regs)) \X {0} \X (1..Len(envs)) :
      LET e == T.regs[x[2]] env == envs[x[4]] IN
@@ -168,19 +189,28 @@ CoveredByVec(i, o) ==
   \E j \in 1..Len(T.items) :
      LET it == T.items[j] has == IF i = 1 THEN it.m1_has ELSE it.m2_has w == IF i = 1 THEN it.m1_w ELSE it.m2_w IN
      has = 1 /\ it.loc.k = "ptr" /\ it.loc.base.k = "vec" /\ \E d \in KeyOffs(it.loc) : d <= o /\ o < d + w \div 8
-CellClass(x) ==
+HasVecKey(i) == \E j \in 1..Len(T.items) : (IF i = 1 THEN T.items[j].m1_has ELSE T.items[j].m2_has) = 1
+                                             /\ T.items[j].loc.k = "ptr" /\ T.items[j].loc.base.k = "vec"
+(* the assume() copy of branch i's map, which merge() works on, does not hold at cell j what the map holds *)
+CopyDiffers(i, j, envs) ==
+  LET c == T.cells[j] mi == IF i = 1 THEN c.m1 ELSE c.m2 ma == IF i = 1 THEN c.m1a ELSE c.m2a IN
+  ~Bad(ma) /\ \E k \in 1..Len(envs) : Sat(envs[k], T.conds[i]) /\ AltSet(ma, envs[k]) # AltSet(mi, envs[k])
+CellClass(x, envs) ==
   IF x[1] = "m" /\ IsSelfMem(T.cells[x[2]].mm, T.cells[x[2]].o) /\ UnderTopItem(T.cells[x[2]].o) THEN "TopReadAsBottom"
   ELSE IF x[1] = "m" /\ IsSelfMem(T.cells[x[2]].mm, T.cells[x[2]].o) /\ TopKey /\ T.thr > 0 THEN "TopPointerKey"
   ELSE IF x[1] = "m" /\ x[3] = 2 /\ T.cells[x[2]].o \in LostPlain THEN "SkipWiderSecond"
   ELSE IF x[1] = "m" /\ x[3] = 2 /\ T.cells[x[2]].o \in LostVec THEN "SkipWiderSecondVec"
+  ELSE IF x[1] = "m" /\ x[3] \in {1, 2} /\ HasVecKey(x[3]) /\ CopyDiffers(x[3], x[2], envs) THEN "VecMapCopyDiffers"
   ELSE IF x[1] = "m" /\ x[3] \in {1, 2} /\ (CoveredTwice(x[3], T.cells[x[2]].o) \/ StaleAt(x[3], T.cells[x[2]].o))
-       THEN (IF CoveredByVec(x[3], T.cells[x[2]].o) THEN "VecKeyRewriteOrder" ELSE "StaleItems")
+       THEN (IF CoveredByVec(x[3], T.cells[x[2]].o) THEN "VecKeyRewriteOrder"
+             ELSE IF HasVecKey(x[3]) /\ ~CoveredTwice(x[3], T.cells[x[2]].o) THEN "VecStoreDropsItem"
+             ELSE "StaleItems")
   ELSE IF x[1] = "m" /\ x[3] \in {1, 2} /\ Itemless(x[3], T.cells[x[2]].o) THEN "VecStoreDropsItem"
   ELSE IF x[1] = "i" /\ x[2] \in WiderSecond /\ x[3] = 2 THEN (IF x[2] \in WiderVec THEN "SkipWiderSecondVec" ELSE "SkipWiderSecond")
   ELSE IF x[1] = "k" /\ T.items[x[2]].loc.k = "ptr" /\ T.items[x[2]].loc.base.k = "top" /\ T.thr > 0 THEN "TopPointerKey"
   ELSE ""
-Attribute(fc, fu, fl, fk) ==
-  LET cs == {CellClass(x) : x \in fc \cup fl \cup fk} IN
+Attribute(fc, fu, fl, fk, envs) ==
+  LET cs == {CellClass(x, envs) : x \in fc \cup fl \cup fk} IN
   IF fu # {} \/ "" \in cs THEN {} ELSE cs
 
 Verdict ==
@@ -188,15 +218,17 @@ Verdict ==
   ELSE
     LET envs == [k \in 1..Len(T.envs) |-> EnvOf(T.envs[k])]
         fc == FailRegs(envs) \cup FailCells(envs)
+        fe == FailEvRegs(envs) \cup FailEvCells(envs)
         fu == FailUntouched(envs)
         fl == FailListed(envs)
         fk == FailKeys
         nsat == Cardinality({<<i, k>> \in {1, 2} \X (1..Len(envs)) : Sat(envs[k], T.conds[i])})
-    IN IF fc = {} /\ fu = {} /\ fl = {} /\ fk = {} THEN [t |-> T.t, v |-> "ok", clause |-> "", what |-> <<>>, quirks |-> {}, nsat |-> nsat]
+    IN IF fc = {} /\ fe = {} /\ fu = {} /\ fl = {} /\ fk = {} THEN [t |-> T.t, v |-> "ok", clause |-> "", what |-> <<>>, quirks |-> {}, nsat |-> nsat]
        ELSE [t |-> T.t, v |-> "fail",
-             clause |-> IF fc # {} THEN "Covers" ELSE IF fu # {} THEN "Untouched" ELSE IF fk # {} THEN "Keys" ELSE "Listed",
-             what |-> CHOOSE x \in (IF fc # {} THEN fc ELSE IF fu # {} THEN fu ELSE IF fk # {} THEN fk ELSE fl) : TRUE,
-             quirks |-> Attribute(fc, fu, fl, fk), nsat |-> nsat]
+             clause |-> IF fc # {} THEN "Covers" ELSE IF fe # {} THEN "EvalCovers" ELSE IF fu # {} THEN "Untouched"
+                        ELSE IF fk # {} THEN "Keys" ELSE "Listed",
+             what |-> CHOOSE x \in (IF fc # {} THEN fc ELSE IF fe # {} THEN fe ELSE IF fu # {} THEN fu ELSE IF fk # {} THEN fk ELSE fl) : TRUE,
+             quirks |-> Attribute(fc \cup fe, fu, fl, fk, envs), nsat |-> nsat]
 
 Init == tid \in 1..Len(Traces) /\ done = FALSE
 Next == /\ ~done /\ done' = TRUE /\ UNCHANGED tid
